@@ -5312,7 +5312,11 @@ impl GraphEngine {
                 } else if (new_cost - current_dist).abs() < EPSILON {
                     // Equal cost - add parent
                     if let Some(p) = parents.get_mut(&neighbor) {
-                        if p.len() < config.max_parents_per_node {
+                        // An undirected edge is listed both as outgoing and as incoming edge
+                        // of its endpoints: record each (parent, edge) step once.
+                        if p.len() < config.max_parents_per_node
+                            && !p.contains(&(node_id, edge_id))
+                        {
                             p.push((node_id, edge_id));
                         }
                     }
@@ -5350,7 +5354,11 @@ impl GraphEngine {
                     }
                 } else if (new_cost - current_dist).abs() < EPSILON {
                     if let Some(p) = parents.get_mut(&neighbor) {
-                        if p.len() < config.max_parents_per_node {
+                        // An undirected edge is listed both as outgoing and as incoming edge
+                        // of its endpoints: record each (parent, edge) step once.
+                        if p.len() < config.max_parents_per_node
+                            && !p.contains(&(node_id, edge_id))
+                        {
                             p.push((node_id, edge_id));
                         }
                     }
